@@ -84,6 +84,10 @@ def uniform_fill(
     torch.Tensor
         A binary mask with the specified number of 1s placed in a uniform random manner.
     """
+    if nonzero_mask_count == 0:
+        # Nothing to select (e.g. an empty `mask`, for which the sampling probabilities are undefined).
+        return torch.zeros_like(mask, dtype=mask.dtype)
+
     prob = mask.flatten().numpy()
     ind_flattened = rng.choice(
         torch.arange(nrow * ncol),
